@@ -1,9 +1,12 @@
-(* C02 — Function signatures equal CPython's view of the same definition.
+(* C02 -- Function signatures equal CPython's view of the same definition.
    Property theorems only: each closed by [exact] of a lemma from Proofs/, followed by Print Assumptions. *)
 From Coq Require Import List ZArith String Bool Arith.
-From Verif Require Import Lib.Sexp Model.C02_params Proofs.C02_params.
+From Verif Require Import Lib.Sexp Model.C02_kinds Gen.C02_tables Model.C02_params Model.C02_container Model.C02_scope
+  Proofs.C02_params Proofs.C02_container Proofs.C02_scope.
 Import ListNotations.
 Open Scope list_scope. Open Scope nat_scope.
+
+(* ===== get_parameters (over the constants regenerated from parameters.py / enumerations.py) ===== *)
 
 (* Names, order, kinds, annotation, default presence and WHICH default: Griffe's list is CPython's, for every
    mix and every length of positional-only / positional-or-keyword / variadic / keyword-only parameters. *)
@@ -12,12 +15,20 @@ Theorem C02_parameters_eq_cpython :
 Proof. exact parameters_eq_cpython. Qed.
 Print Assumptions C02_parameters_eq_cpython.
 
-(* The inputs the real code rejects (never produced by ast.parse): more defaults than positional parameters. *)
+(* The inputs the real code rejects (never produced by ast.parse): more defaults than positional parameters ... *)
 Theorem C02_too_many_defaults_rejected :
   forall a, List.length (posonly a) + List.length (args a) < List.length (defaults a) ->
   get_parameters a = Err "TypeError"%string.
 Proof. exact too_many_defaults_rejected. Qed.
 Print Assumptions C02_too_many_defaults_rejected.
+
+(* ... and more kw_defaults than keyword-only parameters. *)
+Theorem C02_too_many_kw_defaults_rejected :
+  forall a, List.length (defaults a) <= List.length (posonly a) + List.length (args a) ->
+  List.length (kwonly a) < List.length (kw_defaults a) ->
+  get_parameters a = Err "AttributeError"%string.
+Proof. exact too_many_kw_defaults_rejected. Qed.
+Print Assumptions C02_too_many_kw_defaults_rejected.
 
 Theorem C02_required_iff_no_default :
   forall a i, wf a = true -> i < List.length (posonly a) + List.length (args a) ->
@@ -26,27 +37,218 @@ Theorem C02_required_iff_no_default :
 Proof. exact required_iff_no_default. Qed.
 Print Assumptions C02_required_iff_no_default.
 
+(* The regenerated enum: five members, five distinct values (no Enum aliasing between kinds). *)
+Theorem C02_kind_values_distinct :
+  map fst kind_values = [PO; PK; VP; KO; VK] /\ NoDup (map snd kind_values).
+Proof. exact kind_values_distinct. Qed.
+Print Assumptions C02_kind_values_distinct.
+
+(* ===== the container (lookup by name / index, deletion, insertion) ===== *)
+
+(* Every operation sequence from every initial content behaves like a plain abstract list: same result or
+   exception at every step, same final content. *)
+Theorem C02_container_refines_list :
+  forall os l, run_ops c_step l os = run_ops a_step l os.
+Proof. exact container_refines_list. Qed.
+Print Assumptions C02_container_refines_list.
+
+(* Lookup by name returns the FIRST element in iteration order carrying that name (stars stripped from the key),
+   for every list -- duplicates included. *)
+Theorem C02_get_by_name_first_match :
+  forall s l p, c_getitem (KStr s) l = Ok p <->
+  exists i, nth_error l i = Some p /\ pname p = lstrip_star s /\
+            (forall j q, j < i -> nth_error l j = Some q -> pname q <> lstrip_star s).
+Proof. exact get_by_name_first_match. Qed.
+Print Assumptions C02_get_by_name_first_match.
+
+(* Name and index agree: the name's position is a valid index holding the same element; an absent name raises
+   KeyError and is not `in` the container. *)
+Theorem C02_get_by_name_eq_get_by_index :
+  forall s l, match find_index (lstrip_star s) l with
+  | Some j => c_getitem (KStr s) l = c_getitem (KInt (Z.of_nat j)) l /\ j < List.length l
+  | None => c_getitem (KStr s) l = Err "KeyError"%string /\ c_contains s l = false
+  end.
+Proof. exact get_by_name_eq_get_by_index. Qed.
+Print Assumptions C02_get_by_name_eq_get_by_index.
+
+Theorem C02_contains_iff_get :
+  forall s l, c_contains s l = true <-> exists p, c_getitem (KStr s) l = Ok p.
+Proof. exact contains_iff_get. Qed.
+Print Assumptions C02_contains_iff_get.
+
+Theorem C02_get_by_index_range :
+  forall i l, (exists p, c_getitem (KInt i) l = Ok p) <-> (- Z.of_nat (List.length l) <= i < Z.of_nat (List.length l))%Z.
+Proof. exact get_by_index_range. Qed.
+Print Assumptions C02_get_by_index_range.
+
+Theorem C02_get_negative_index :
+  forall i l, (0 <= i < Z.of_nat (List.length l))%Z ->
+  c_getitem (KInt (i - Z.of_nat (List.length l))) l = c_getitem (KInt i) l.
+Proof. exact get_negative_index. Qed.
+Print Assumptions C02_get_negative_index.
+
+(* A successful deletion (by name or index) removes exactly one position; earlier positions keep their element,
+   later ones move down by one ... *)
+Theorem C02_delitem_shifts_positions :
+  forall k l l', c_delitem k l = Ok l' ->
+  exists j, deleted_position k l = Some j /\ S (List.length l') = List.length l /\
+    forall j', nth_error l' j' = if j' <? j then nth_error l j' else nth_error l (S j').
+Proof. exact delitem_shifts_positions. Qed.
+Print Assumptions C02_delitem_shifts_positions.
+
+(* ... and every lookup by a name other than the deleted element's still answers the same (every list). *)
+Theorem C02_delitem_keeps_other_names :
+  forall k l l' t, c_delitem k l = Ok l' ->
+  (forall j p, deleted_position k l = Some j -> nth_error l j = Some p -> pname p <> lstrip_star t) ->
+  c_getitem (KStr t) l' = c_getitem (KStr t) l /\ c_contains t l' = c_contains t l.
+Proof. exact delitem_keeps_other_names. Qed.
+Print Assumptions C02_delitem_keeps_other_names.
+
+Theorem C02_delitem_by_name_fails_iff_absent :
+  forall s l, c_delitem (KStr s) l = Err "KeyError"%string <-> c_contains s l = false.
+Proof. exact delitem_by_name_fails_iff_absent. Qed.
+Print Assumptions C02_delitem_by_name_fails_iff_absent.
+
+(* With distinct names a deleted name is gone; the code itself does not enforce distinct names
+   (constructor, setitem), and without them the statement is false. *)
+Theorem C02_delitem_by_name_then_absent :
+  forall s l l', nodupb (names_of l) = true -> c_delitem (KStr s) l = Ok l' -> c_contains s l' = false.
+Proof. exact delitem_by_name_then_absent. Qed.
+Print Assumptions C02_delitem_by_name_then_absent.
+
+Theorem C02_delitem_by_name_then_absent_needs_nodup :
+  exists l l', c_delitem (KStr "a") l = Ok l' /\ c_contains "a" l' = true.
+Proof. exact delitem_by_name_then_absent_needs_nodup. Qed.
+Print Assumptions C02_delitem_by_name_then_absent_needs_nodup.
+
+(* Distinct names are an invariant of del, add (unstarred name) and setitem under the element's own name. *)
+Theorem C02_delitem_keeps_nodup :
+  forall k l l', nodupb (names_of l) = true -> c_delitem k l = Ok l' -> nodupb (names_of l') = true.
+Proof. exact delitem_keeps_nodup. Qed.
+Print Assumptions C02_delitem_keeps_nodup.
+
+Theorem C02_add_spec :
+  forall p l, (c_contains (pname p) l = true /\ c_add p l = Err "ValueError"%string) \/
+              (c_contains (pname p) l = false /\ c_add p l = Ok (l ++ [p])).
+Proof. exact add_spec. Qed.
+Print Assumptions C02_add_spec.
+
+Theorem C02_add_keeps_nodup :
+  forall p l l', no_star (pname p) = true -> nodupb (names_of l) = true -> c_add p l = Ok l' ->
+  nodupb (names_of l') = true /\ c_getitem (KStr (pname p)) l' = Ok p.
+Proof. exact add_keeps_nodup. Qed.
+Print Assumptions C02_add_keeps_nodup.
+
+Theorem C02_setitem_by_name_then_get :
+  forall s q l l', c_setitem (KStr s) q l = Ok l' -> pname q = lstrip_star s ->
+  c_getitem (KStr s) l' = Ok q /\
+  List.length l' = (if c_contains s l then List.length l else S (List.length l)).
+Proof. exact setitem_by_name_then_get. Qed.
+Print Assumptions C02_setitem_by_name_then_get.
+
+Theorem C02_setitem_by_name_keeps_nodup :
+  forall s q l l', nodupb (names_of l) = true -> pname q = lstrip_star s -> c_setitem (KStr s) q l = Ok l' ->
+  nodupb (names_of l') = true.
+Proof. exact setitem_by_name_keeps_nodup. Qed.
+Print Assumptions C02_setitem_by_name_keeps_nodup.
+
+(* Reachable states in which a stored element cannot be found under its key (the code does not check them). *)
+Theorem C02_setitem_name_mismatch_unfindable :
+  exists s q l l', c_setitem (KStr s) q l = Ok l' /\ c_getitem (KStr s) l' = Err "KeyError"%string.
+Proof. exact setitem_name_mismatch_unfindable. Qed.
+Print Assumptions C02_setitem_name_mismatch_unfindable.
+
+Theorem C02_add_starred_name_unfindable :
+  exists p l', c_add p [] = Ok l' /\ c_getitem (KStr (pname p)) l' = Err "KeyError"%string /\ c_add p l' = Ok (l' ++ [p]).
+Proof. exact add_starred_name_unfindable. Qed.
+Print Assumptions C02_add_starred_name_unfindable.
+
+(* Bound-method view: dropping the first parameter of what Griffe reports for a definition = CPython's signature
+   of the bound method / classmethod; the rest is found by name as in CPython's mapping; the dropped one is gone. *)
+Theorem C02_bound_view_of_definition :
+  forall a ps, wf a = true -> get_parameters a = Ok ps ->
+  griffe_bound ps = cpython_bound (cpython_signature a) /\
+  (forall b, griffe_bound ps = Ok b ->
+     (forall n, no_star n = true ->
+        c_getitem (KStr n) b = match cpython_by_name n b with Some p => Ok p | None => Err "KeyError"%string end) /\
+     (forall p r n, ps = p :: r -> b = r -> pname p <> lstrip_star n ->
+        c_getitem (KStr n) b = c_getitem (KStr n) ps) /\
+     (forall p r, ps = p :: r -> b = r -> nodupb (names_of ps) = true -> no_star (pname p) = true ->
+        c_contains (pname p) b = false)).
+Proof. exact bound_view_of_definition. Qed.
+Print Assumptions C02_bound_view_of_definition.
+
+(* ===== handle_function: overloads, properties, accessors, redefinitions ===== *)
+
+(* Names do not interfere, whatever the interleaving: the member, the pending overloads and the outcomes of the
+   definitions of one name are those of the body restricted to that name. *)
+Theorem C02_scope_independence :
+  forall n its s1 s2,
+  tracks s1 = tracks s2 -> mem n s1 = mem n s2 -> buf n s1 = buf n s2 ->
+  mem n (visit_items its s1) = mem n (visit_items (filter (named n) its) s2) /\
+  buf n (visit_items its s1) = buf n (visit_items (filter (named n) its) s2) /\
+  log_of n its (visit_log its s1) = visit_log (filter (named n) its) s2.
+Proof. exact scope_independence. Qed.
+Print Assumptions C02_scope_independence.
+
+(* Which outcome a definition has. *)
+Theorem C02_outcome_cases :
+  forall s f, let o := snd (handle_function s f) in
+  (existsb is_property (fdecos f) = true -> o = OProp) /\
+  (existsb is_property (fdecos f) = false -> existsb is_overload (fdecos f) = true ->
+     o = if tracks s then OOverload else ODropped) /\
+  (existsb is_property (fdecos f) = false -> existsb is_overload (fdecos f) = false ->
+     match base_property s (fname f) (fdecos f), mem (fname f) s with
+     | Some true, Some (MProp id _ _) => o = OSetter id
+     | Some false, Some (MProp id _ _) => o = ODeleter id
+     | _, _ => o = OImpl (if tracks s then buf (fname f) s else [])
+     end).
+Proof. exact outcome_cases. Qed.
+Print Assumptions C02_outcome_cases.
+
+(* Every implementation, wherever it stands in a module/class body, carries exactly the overloads of its name
+   declared since the previous implementation of that name, in source order (a redefinition starts afresh). *)
+Theorem C02_impl_overloads_since_last_impl :
+  forall pre f post s ovs, tracks s = true ->
+  nth_error (visit_log (pre ++ IDef f :: post) s) (List.length pre) = Some (OImpl ovs) ->
+  ovs = pending (fname f) (buf (fname f) s) (combine pre (visit_log pre s)).
+Proof. exact impl_overloads_since_last_impl. Qed.
+Print Assumptions C02_impl_overloads_since_last_impl.
+
+Theorem C02_leftover_overloads :
+  forall n its s, tracks s = true ->
+  buf n (visit_items its s) = pending n (buf n s) (combine its (visit_log its s)).
+Proof. exact leftover_overloads. Qed.
+Print Assumptions C02_leftover_overloads.
+
+Theorem C02_function_scope_keeps_no_overloads :
+  forall its s, tracks s = false ->
+  buffer (visit_items its s) = buffer s /\
+  (forall o, In o (visit_log its s) -> o <> OOverload /\ forall ovs, o = OImpl ovs -> ovs = []).
+Proof. exact function_scope_keeps_no_overloads. Qed.
+Print Assumptions C02_function_scope_keeps_no_overloads.
+
 Theorem C02_overloads_attach_in_order :
-  forall n fs impl s,
-  buf n s = [] ->
-  (forall f, In f fs -> fname f = n -> plain_overload f) ->
+  forall n its impl s,
+  tracks s = true -> buf n s = [] ->
+  (forall f, In (IDef f) its -> fname f = n -> plain_overload f) ->
+  (forall i m, In (IBind i m) its -> m <> n) ->
   fname impl = n ->
-  plain_impl (visit_functions fs s) impl ->
-  let s' := visit_functions (fs ++ [impl]) s in
-  lookup n (members s') = Some (MFunc (fid impl) (map fid (filter (fun f => String.eqb (fname f) n) fs))) /\
-  buf n s' = [].
+  plain_impl (visit_items its s) impl ->
+  let s' := visit_items (its ++ [IDef impl]) s in
+  mem n s' = Some (MFunc (fid impl) (map iid (filter (named n) its))) /\ buf n s' = [].
 Proof. exact overloads_attach_in_order. Qed.
 Print Assumptions C02_overloads_attach_in_order.
 
 Theorem C02_setter_deleter_keep_property :
   forall s f id st dl b,
-  lookup (fname f) (members s) = Some (MProp id st dl) ->
+  mem (fname f) s = Some (MProp id st dl) ->
   existsb is_property (fdecos f) = false -> existsb is_overload (fdecos f) = false ->
   base_property s (fname f) (fdecos f) = Some b ->
-  let s' := handle_function s f in
-  lookup (fname f) (members s') =
-    Some (if b then MProp id (Some (fid f)) dl else MProp id st (Some (fid f))) /\
-  (forall m, m <> fname f -> lookup m (members s') = lookup m (members s)) /\
+  let s' := step s (IDef f) in
+  mem (fname f) s' = Some (if b then MProp id (Some (fid f)) dl else MProp id st (Some (fid f))) /\
+  snd (handle_item s (IDef f)) = (if b then OSetter id else ODeleter id) /\
+  (forall m, m <> fname f -> mem m s' = mem m s) /\
   buffer s' = buffer s.
 Proof. exact setter_deleter_keep_property. Qed.
 Print Assumptions C02_setter_deleter_keep_property.
